@@ -20,10 +20,10 @@ LEVEL = "fault_enumeration"
 BUDGET = {"quick": 150, "thorough": 900}
 EXHAUSTIVE = {"quick": True, "thorough": True}
 RULE = ("Grid (complete): starttls argument {False, True, 1, 'required' (truthy, not the True singleton)} x server STARTTLS support {no,yes} x SASL announcement variant "
-        "(same pre/post; pre PLAIN -> post LOGIN only; pre none -> post PLAIN; pre PLAIN -> post none; no SASL capability; post look-alike names only) x "
+        "(same pre/post; pre PLAIN -> post LOGIN only; pre none -> post PLAIN; pre PLAIN -> post none; no SASL capability; post look-alike names only; post names that are not UTF-8) x "
         "authmech {None, PLAIN, LOGIN, OAUTHBEARER, DIGEST-MD5, unknown} x one fault (or none) at a handshake step: greeting "
         "{refuse, BYE, NO, silence, close, garbage, missing OK}, STARTTLS {NO, BYE, silence, close, OK followed by an injected plaintext capability block}, TLS handshake "
-        "{SSLError, cert error, timeout, EOF}, post-TLS capabilities {BYE, NO, silence, close, garbage, missing OK, a complete listing with a line that is not UTF-8 / blank}, "
+        "{SSLError, cert error, timeout, EOF}, post-TLS capabilities {BYE, NO, silence, close, garbage, missing OK, a complete listing with a line that is not UTF-8 / blank, a listing that arrives after the read timeout (alone, and with a wrong password)}, "
         "AUTHENTICATE {NO, BYE, silence, close}, verdict {NO, BYE, wrong password, NO carrying valid final SASL data}; BYEs also with a REFERRAL response code. Every cell runs the history: the 8 "
         "script methods before connect; connect; the 8 script methods + capability; a second connect on the same object "
         "(refused / failing authentication / succeeding); the 8 script methods again. Then random histories (<= 8 calls "
@@ -48,13 +48,15 @@ SASL_VARIANTS = [
     ("pre-plain-post-bare-sasl-line", ["PLAIN"], "bare"),
     # after the handshake only names that merely contain the name of an implemented mechanism: nothing qualifies
     ("pre-plain-post-lookalikes", ["PLAIN"], ["SCRAM-SHA-256-PLUS", "X-PLAIN-SUBMIT", "NTLOGIN", "DIGEST-MD5-SESS"]),
+    # ... or names that are not UTF-8 and turn into an implemented mechanism's name once the offending bytes are dropped
+    ("pre-plain-post-not-utf8", ["PLAIN"], [b"PLA\xffIN", b"LOG\xe9IN", b"\xfeDIGEST-MD5", b"OAUTH\xc3BEARER"]),
 ]
 AUTHMECHS = [None, "PLAIN", "LOGIN", "OAUTHBEARER", "X-UNKNOWN", "DIGEST-MD5"]
 FAULTS = [None] + \
     [("greeting", k) for k in ("refuse", "bye", "no", "silent", "close", "garbage", "nook", "bye-referral")] + \
     [("starttls", k) for k in ("NO", "BYE", "silent", "close", "inject", "BYE-referral")] + \
     [("tls", k) for k in ("sslerror", "certerror", "timeout", "eof")] + \
-    [("postcaps", k) for k in ("bye", "no", "silent", "close", "garbage", "nook", "badline-utf8", "badline-blank")] + \
+    [("postcaps", k) for k in ("bye", "no", "silent", "close", "garbage", "nook", "badline-utf8", "badline-blank", "late", "late+badpw")] + \
     [("authenticate", k) for k in ("NO", "BYE", "silent", "close", "BYE-referral")] + \
     [("verdict", k) for k in ("NO", "BYE", "badpw", "NO-sasl", "BYE-referral")]
 SECOND = ["refuse", "badpw", "ok", "greeting-close"]
@@ -170,13 +172,15 @@ class Hooks:
     def postcaps(self, conn):
         if self._is("postcaps"):
             self.fired = True
-            return self.fault[1]
+            return "late" if self.fault[1].startswith("late") else self.fault[1]
         return None
 
     def auth(self, conn, creds, ok):
         if self._is("verdict") and self.fault[1] == "badpw":
             self.fired = True
             return False
+        if self._is("postcaps") and self.fault[1] == "late+badpw":
+            return False        # a late listing and, should the client carry on regardless, a wrong password
         return ok
 
     def arm_early_reject(self, ch):
@@ -256,7 +260,9 @@ def run(ch, config, res):
     world_cfg.starttls = bool(srv_tls)
     world_cfg.sasl_pre = pre
     world_cfg.sasl_post = post
+    binary_names = isinstance(post, list) and any(isinstance(m, bytes) for m in post)
     world = World(ch, world_cfg, client_impl=config.get("client", "real"), read_timeout=5)
+    world.server.quote_binary = binary_names      # this peer is malformed on purpose: the names travel inside quotes
     srv = world.server
     srv.data_variation = False
     srv.cap_variation = True
